@@ -128,6 +128,7 @@ func newEnv(ctx context.Context, ac *actors, withNote bool) *env {
 }
 
 type docInfo struct {
+	initJS string // the content the document was created with (a create with the same content addresses the same document)
 	label   string
 	col     string
 	private bool
@@ -236,8 +237,18 @@ func (w *world) apply(e *env, line string) string {
 		if e == w.real {
 			var f map[string]any
 			must(json.Unmarshal([]byte(js), &f))
-			w.docs[label] = &docInfo{label: label, col: colName, private: owner == "O", docID: d.ID().String(), fields: f, rels: map[string]map[string]bool{}}
+			w.docs[label] = &docInfo{label: label, col: colName, private: owner == "O", docID: d.ID().String(), fields: f, rels: map[string]map[string]bool{}, initJS: js}
 			w.order = append(w.order, label)
+		}
+		return "ok"
+	case "recreate": // recreate <who> <label>: a create with the content the document was created with
+		d := w.docs[t[2]]
+		col, err := e.n.DB.GetCollectionByName(w.ctx, d.col)
+		must(err)
+		nd, err := client.NewDocFromJSON([]byte(w.substitute(d.initJS)), col.Definition())
+		must(err)
+		if err := col.Create(w.ac.ctx(w.ctx, t[1]), nd); err != nil {
+			return "error"
 		}
 		return "ok"
 	case "rel": // rel <grant|revoke> <relation> <label> <target>
@@ -759,6 +770,16 @@ func runCase(ctx context.Context, out *vc.Out, ac *actors, lines []string, seed 
 			if res == "ok" && t[0] == "del" && !w.docs[t[2]].canDelete(t[1]) {
 				out.Oracle(out.Lines, fmt.Sprintf("[delete-without-permission] case %d: %s succeeded", w.caseID, l))
 			}
+		case "recreate":
+			// a create that addresses an existing document never succeeds and never writes (whoever asks: a document the
+			// requester may not read looks absent to them, but creating it again must not append to it)
+			before := w.ownerDump()
+			res = w.apply(w.real, l)
+			if after := w.ownerDump(); after != before {
+				out.Oracle(out.Lines, fmt.Sprintf("[create-over-existing-document-changed-it] case %d: %s (result %s) changed the owner's view from %s to %s", w.caseID, l, res, clip(before), clip(after)))
+			} else if res == "ok" {
+				out.Oracle(out.Lines, fmt.Sprintf("[create-over-existing-document-succeeded] case %d: %s", w.caseID, l))
+			}
 		case "vis":
 			res = w.vis(t[1])
 			w.visOracle(t[1], res)
@@ -844,6 +865,8 @@ func genCase(r *vc.Rng, id uint64) []string {
 			lines = append(lines, fmt.Sprintf("del %s %s", append([]string{"O"}, whos...)[r.Intn(4)], l))
 		case x == 11:
 			lines = append(lines, fmt.Sprintf(`updall %s Author {"age": %d}`, whos[r.Intn(3)], 90+r.Intn(9)))
+		case x == 12 && r.Bool():
+			lines = append(lines, fmt.Sprintf("recreate %s %s", append([]string{"O"}, whos...)[r.Intn(4)], l))
 		case x == 12:
 			lines = append(lines, "vis "+whos[r.Intn(3)])
 		default:
